@@ -1230,6 +1230,11 @@ def run_C16(ctx, rng, tier, res, known):
             impl = run_impl(c, p, lines)
             for i, line in enumerate(lines):
                 I = impl[i]
+                if model[i].startswith("iter-model-disagrees"):
+                    # the executable iterator-level model (Model/Iter.lean) left the list-level one: contradicts
+                    # the theorem C16Iter.parseFloatI_eq, i.e. the machinery is inconsistent
+                    res.fault.append(dict(why="iterator-level model differs from the list-level model", case=line[:300], model=model[i][:200]))
+                    continue
                 m, trap, s = _mod().parse_model(model[i])
                 res.evals += 11
                 if I.startswith(("panic", "abort")):
@@ -1243,10 +1248,41 @@ def run_C16(ctx, rng, tier, res, known):
                     res.drift.append(dict(case=line[:300], cfg=c, impl=vals[0], model=want))
                 res.nontrivial.add(line)
     history_sequences(ctx, rng, res, 150 if q else 3000)
+    nonfused_correspondence(ctx, rng, res, cases, 400 if q else 20000)
     if tier == "thorough":
         miri_pass(ctx, res, [l for l in lines if len(l) < 400][:12], ("std",))
     res.samples.append(dict(case=lines[0][:200], shapes="slice, chain(2 splits), filter, VecDeque, lying size_hint, stack poison x2, after 780-digit parse, re-addressed copy, 8 threads"))
     return {}
+
+def nonfused_correspondence(ctx, rng, res, cases, n):
+    """the iterator-level model (Model/Iter.lean: the parser written against `next()` only, proved equal to the
+    list-level model for every terminating FUSED iterator) is run against the real code on iterators that are NOT
+    fused (a, None, b, None, ...): there the list abstraction does not apply and the only reference is the
+    iterator-level model itself. Agreement validates that model's control flow (clone per pass, `next()` after a
+    `None`, `count()` on a partly consumed iterator); a difference is model drift, never a verdict, because C16
+    only speaks about well-behaved iterators."""
+    pool = [c[0].split(" ## ")[0].split() for c in cases]
+    pool = [t for t in pool if gens.untok(t[2]) is not None and gens.untok(t[3]) is not None and len(t[2]) + len(t[3]) < 2500]
+    sel = pool if len(pool) <= n else rng.sample(pool, n)
+    lines = []
+    for t in sel:
+        a, b = gens.untok(t[2]), gens.untok(t[3])
+        i = rng.choice([0, len(a), rng.randint(0, len(a)), min(len(a), 19), min(len(a), 20)])
+        j = rng.choice([0, len(b), rng.randint(0, len(b)), len(b) - len(b.lstrip("0")), min(len(b), 1)])
+        lines.append("nf %s %s %s %s %s %s" % (t[1], gens.tok(a[:i]), gens.tok(a[i:]), gens.tok(b[:j]), gens.tok(b[j:]), t[4]))
+    differs_from_list = 0
+    for c in [x for x in ctx.cfgs if x in ("std", "std+compact")]:
+        model = run_model(c, "release", lines)
+        impl = run_impl(c, "release", lines)
+        for line, I, M in zip(lines, impl, model):
+            res.evals += 1
+            mi, _, ml = M.partition(" | L ")
+            if I != mi:
+                res.drift.append(dict(case=line[:300], cfg=c, impl=I, model=mi, note="iterator-level model differs from the real code on a non-fused iterator"))
+            if mi != ml:
+                differs_from_list += 1
+    res.extra["nonfused_iterator_cases"] = len(lines)
+    res.extra["nonfused_cases_where_the_list_reading_differs"] = differs_from_list
 
 def history_sequences(ctx, rng, res, n):
     """call-history independence: groups of RELATED inputs (same significand bits at neighbouring binary
